@@ -13,7 +13,7 @@ RULE = ('for every transfer type/mode a dry run lists the boundary events; one r
         'the with-block; plus cancel-before-start (the single submission thread is parked in an earlier transfer\'s on_queued, so '
         '"not started" is established behaviourally), cancel after completion, and cancels landing in named race windows of the '
         'final task; oracle: result() type+message per entry point, or an injected fault, or success iff the content oracle passes; '
-        'no S3 request/on_queued for a not-started transfer; C05/C06 cleanup oracles; shutdown itself must not raise; non-trivial = '
+        'no S3 request/on_queued for a not-started transfer; C05/C06 cleanup oracles; shutdown itself must not raise; entry points also include Ctrl-C while __exit__ waits after a normal with-block (kbi_exit) and with-blocks left through SystemExit / GeneratorExit / a BaseException subclass; non-trivial = '
         'the cancel actually fired before the transfer\'s on_done; distinct = (shape incl. cancel site/entry, interleaving signature)')
 ASSUMPTIONS = [
     'a cancel racing the final step may legitimately yield success iff the effect is complete (statement)',
